@@ -20,7 +20,8 @@ CHECKS = {
             ("R-TMP.io", "r_tmp", "run_io", ("quick", "thorough"))],
     "C14": [("R-PURE", "r_assert", "run_pure", ("quick", "thorough")),
             ("R-CONSTASSERT", "r_assert", "run_constassert", ("quick", "thorough")),
-            ("R-TMP.modes", "r_tmp", "run_modes", ("quick", "thorough"))],
+            ("R-TMP.modes", "r_tmp", "run_modes", ("quick", "thorough")),
+            ("R-ABI", "r_abi", "run", ("quick", "thorough"))],
 }
 
 # rule id -> (module, function) used by the mutation self-tests
@@ -36,6 +37,7 @@ RULES = {
     "R-TABLES.c06": ("r_tables", "run_c06"),
     "R-TABLES.c16": ("r_tables", "run_c16"),
     "R-TABLES.logic": ("r_tables", "run_logic"),
+    "R-ABI": ("r_abi", "run"),
     "R-ALIAS": ("r_alias", "run"),
     "R-ALIAS.mem": ("r_alias", "run_mem"),
     "R-TABIDX.digit": ("r_tables", "run_digit_index"),
@@ -50,7 +52,10 @@ EXPLANATION = {
     "C14": "Static analysis of the build-option dimension: code that exists only under --enable-assert has no effect on state "
            "(R-PURE), every compile-time-constant assertion holds under each shipped tuning table (R-CONSTASSERT), and no "
            "TMP block is used after TMP_FREE or escapes (the alloca / malloc-reentrant / debug temporaries cannot differ). "
-           "Kernel ABI and dispatch-contract rules are added as they are built.  Functional equivalence of kernels is not decided.",
+           "R-ABI checks every assembly kernel (13 built ones in the quick tier, all 351 under mpn/x86_64/** in the thorough tier) "
+           "against the SysV ABI by abstract interpretation of its machine code: no register or flag read before it is written, "
+           "callee-saved registers restored and stack balanced on every path to every ret, red zone respected.  Functional "
+           "equivalence of kernels with the C routines is not decided.",
     "C05": "Flow-sensitive abstract interpretation (aliasflow) of every mpz/mpq/mpf function with an output operand under the manual's "
            "aliasing model, partitioned on pointer-comparison facts: (R-STALE) no limb pointer of an object is used after an event "
            "that may move or free the block of any object that may be the same variable, without being reloaded; (R-CLOBBER) no "
@@ -98,6 +103,12 @@ ASSUMPTIONS = {
     "R-TABLES.c06": ["tables are read from the linked LLVM IR (clang's constant evaluation of the initialisers); definitions recomputed "
                      "with Python integers / 60-digit decimals", "MPN_SIZEINBASE witnesses emulate the macro's IEEE double multiply and "
                      "truncation; two of them were replayed against the real library (findings/sizeinbase)"],
+    "R-ABI": ["kernels are assembled with the Makefile's recipes (yasm -f elf64 -D PIC; m4 -DPIC | gcc -c) and decoded with LLVM MC; LLVM's instruction "
+              "descriptions give register defs/uses, a small table refines which flag groups each mnemonic reads/writes",
+              "SysV AMD64 ABI: rbx rbp r12-r15 callee-saved, 128-byte red zone, DF clear, arguments in rdi rsi rdx rcx r8 r9; arity and return "
+              "type from the C prototypes in mpir.h / gmp-impl.h", "indirect jumps go to the jump table the code last took the address of, or to "
+              "code labels held in the jump register; computed jumps without either are listed in spec/abi_out_of_domain.tsv",
+              "decides register/flag/stack discipline only - NOT that a kernel computes the same limbs as the C routine"],
     "R-ALIAS": ["alias model of the manual: an output may be the same variable as any input of its type, two outputs are distinct, locals alias nothing; "
                 "static helpers inherit the aliasing their call sites in the unit can produce",
                 "public callees handle overlap between their own operands (the same rules applied to them)",
